@@ -31,15 +31,16 @@ CONFIGS = {
                          ("ControllerMC_crash3.cfg", "edges"), ("ControllerMC_prefer.cfg", "edges"), ("ControllerMC_share.cfg", "edges"),
                          ("ControllerMC_stable_sim.cfg", "sim")]},
     "C06": {"quick": [("ControllerMC_crash.cfg", "edges"), ("ControllerMC_crash3.cfg", "edges"), ("ControllerMC_fault.cfg", "edges"),
-                      ("ControllerMC_crashfault.cfg", "edges")],
+                      ("ControllerMC_crashfault.cfg", "edges"), ("ControllerMC_preferfault.cfg", "edges")],
             "thorough": [("ControllerMC_crash.cfg", "edges"), ("ControllerMC_crash3.cfg", "edges"), ("ControllerMC_fault.cfg", "edges"),
+                         ("ControllerMC_preferfault.cfg", "edges"),
                          ("ControllerMC_crashfault.cfg", "edges"), ("ControllerMC_stale.cfg", "edges"),
                          ("ControllerMC_crash_sim.cfg", "sim"), ("ControllerMC_stale_sim.cfg", "sim")]},
     "C07": {"quick": [("ControllerMC_starve.cfg", "edges"), ("ControllerMC_fault.cfg", "edges"), ("ControllerMC_prefer.cfg", "edges")],
             "thorough": [("ControllerMC_starve.cfg", "edges"), ("ControllerMC_fault.cfg", "edges"), ("ControllerMC_prefer.cfg", "edges"),
                          ("ControllerMC_dualreq.cfg", "edges"), ("ControllerMC_starve_sim.cfg", "sim")]},
-    "C11": {"quick": [("ControllerMC_share.cfg", "edges")],
-            "thorough": [("ControllerMC_share.cfg", "edges"), ("ControllerMC_crash_sim.cfg", "sim")]},
+    "C11": {"quick": [("ControllerMC_share.cfg", "edges"), ("ControllerMC_preferfault.cfg", "edges")],
+            "thorough": [("ControllerMC_share.cfg", "edges"), ("ControllerMC_preferfault.cfg", "edges"), ("ControllerMC_crash_sim.cfg", "sim")]},
 }
 SAMPLE = {"quick": 12000, "thorough": None}
 # C03's judge is the most expensive per observation (history conditions): smaller quick sample
